@@ -1,2 +1,4 @@
 pub mod c01;
 pub mod c02;
+pub mod c14;
+pub mod c17;
